@@ -835,12 +835,18 @@ class Translator:
         first_val = {}
         for x in sorted((x for st_ in fn.body for x in ast.walk(st_) if isinstance(x, (ast.Assign, ast.AnnAssign))), key=lambda x: (x.lineno, x.col_offset)):
             tg_ = x.targets[0] if isinstance(x, ast.Assign) and len(x.targets) == 1 else (x.target if isinstance(x, ast.AnnAssign) else None)
-            if isinstance(tg_, ast.Name) and tg_.id not in first_val and x.value is not None and tg_.id not in pnames:
-                first_val[tg_.id] = ast.unparse(x.value)
+            if isinstance(tg_, ast.Name) and x.value is not None and tg_.id not in pnames:
+                first_val.setdefault(tg_.id, []).append(ast.unparse(x.value))
 
         def _by_init(key):
+            # (any assignment of the local with this value counts, not only the first one in the text:
+            # exchanging the branches of an `if` must not matter; order = first such assignment)
             init_, k_ = key.rsplit("#", 1)
-            names_ = [nm for nm in order_ if first_val.get(nm) == init_]
+            names_ = []
+            for x in sorted((x for st_ in fn.body for x in ast.walk(st_) if isinstance(x, (ast.Assign, ast.AnnAssign)) and x.value is not None), key=lambda x: (x.lineno, x.col_offset)):
+                tg2_ = x.targets[0] if isinstance(x, ast.Assign) and len(x.targets) == 1 else (x.target if isinstance(x, ast.AnnAssign) else None)
+                if isinstance(tg2_, ast.Name) and tg2_.id not in pnames and tg2_.id not in names_ and ast.unparse(x.value) == init_:
+                    names_.append(tg2_.id)
             if int(k_) - 1 >= len(names_):
                 raise Untranslatable(f"{self.where}: the spec refers to local {key}, the function has {len(names_)} locals starting as {init_}")
             return names_[int(k_) - 1]
